@@ -2,7 +2,8 @@
 import collections, re
 from . import sexpr as S
 from .gen import G, hx, mutate, pad_image
-from .props import (uw_of, bufspecs, Prop, PROPS, kind_of, toks, entry_of, input_of, member_type, ok_str, err_str, ser, view_of,
+from .extra import relation_members, relation_parse_lines, relation_probes
+from .props import (relation_image_lines, uw_of, bufspecs, Prop, PROPS, kind_of, toks, entry_of, input_of, member_type, ok_str, err_str, ser, view_of,
                     gen_parse_inputs, gen_parse_mixed, gen_builds, ALL_LEAVES, ENTRY_MIN, ENTRY_PT, PT_ENTRY,
                     canon_fir_view, canon_fir_bytes, writes_of, size_n, entry_for_member, has_bad_token, perr_of,
                     hdr_of_view, classes_of, big_members, sdes_pad_sweep, carry_tiles, version_tiles, rpsi_pb_sweep, fmt_sweep,
@@ -478,8 +479,10 @@ class C13(Prop):
                 pl = 'parse %s %s' % (e, hx(pad_image(img, p)))
                 self.pairs[pl] = (base, p)
                 out.append(pl)
-            # the same packet, padded, through the generic parser and as a one-packet compound
-            if g.chance(0.35):
+            # the same packet, padded, through the generic parser and as a one-packet compound (only when the bytes
+            # are one packet: a mutated image whose length field no longer covers it is several tiles, and padding
+            # "it" would make a different packet - appendix A, 11)
+            if g.chance(0.35) and len(img) >= 4 and 4 * ((img[2] << 8 | img[3]) + 1) == len(img):
                 p = g.pick(pads)
                 for ent in ('packet', 'compound'):
                     b2, p2 = 'parse %s %s' % (ent, hx(img)), 'parse %s %s' % (ent, hx(pad_image(img, p)))
@@ -1168,6 +1171,95 @@ PROPS['C15'] = C15()
 PROPS['C16'] = C16()
 PROPS['C19'] = C19()
 
+
+# ------------------------------------------------------------------ relation and scale cases (vlib/extra.py)
+# appended after each check's own cases, from an own PRNG, so that the random streams above stay as they were
+
+def _extend_cases(cls, extra_fn):
+    base = cls.cases
+    def cases(self, g, tier, h):
+        return base(self, g, tier, h) + extra_fn(self, g, tier, h)
+    cls.cases = cases
+
+def _c09_extra(self, g, tier, h):
+    out = [l for l in relation_image_lines(h, ['sr', 'rr', 'app', 'bye', 'fb', 'unk'], also=()) if entry_of(l) in self.FIXED]
+    self.must_accept.update(out)
+    return out + [l for l in relation_parse_lines(tier) if entry_of(l) in self.FIXED]
+_extend_cases(C09, _c09_extra)
+
+_extend_cases(C10, lambda self, g, tier, h: [l for l in relation_image_lines(h, ['sdes'], also=()) ])
+
+def _c11_extra(self, g, tier, h):
+    out = [l for l in relation_parse_lines(tier) if entry_of(l) == 'compound']
+    tiles = set()
+    for l in out:
+        b = input_of(l)
+        off = 0
+        while off + 4 <= len(b) and len(tiles) < 8:
+            ln = 4 * ((b[off + 2] << 8 | b[off + 3]) + 1)
+            tiles.add(bytes(b[off:off + ln])); off += ln
+    bye = bytes([0x81, 203, 0, 1, 1, 2, 3, 4])
+    for l in relation_image_lines(h, also=()):
+        b = input_of(l)
+        if len(b) <= 4096:
+            out += ['parse compound %s' % hx(b), 'parse compound %s' % hx(bye + b + bye), 'parse packet %s' % hx(b)]
+    return out + ['parse packet %s' % hx(t) for t in sorted(tiles)] + ['parse packet %s' % hx(bye)]
+_extend_cases(C11, _c11_extra)
+C11.probes = lambda self, tier: [p for p in relation_probes(tier) if p[0].startswith('parse compound')]
+
+def _c12_extra(self, g, tier, h):
+    out = []
+    for l in relation_image_lines(h, also=()):
+        b = input_of(l)
+        out.append('parse packet %s' % hx(b))
+        out += ['parse %s %s' % (t, hx(b)) for t in self.ALL if len(b) <= 4096 or t == entry_of(l)]
+    # an SDES packet of more than 64 KiB (one chunk of 256 items): the variant must still be the one the type names
+    big = h.images(['sdes 0 1 7 256 %s' % ' '.join('1 - %s' % ('61' * 255) for _ in range(256))])[0]
+    if big is not None:
+        out += ['parse packet %s' % hx(big), 'parse sdes %s' % hx(big)]
+    return out
+_extend_cases(C12, _c12_extra)
+
+def _c13_extra(self, g, tier, h):
+    # bodies of 256 words and more, crossed with paddings: (content words mod 256) + padding words crossing 256
+    out = []
+    ms = ['app 0 1 0 6e616d65 %s' % ('5a' * dl) for dl in (1000, 1012, 1020, 2040)] + \
+         ['fb t 0 1 2 nack 500 %s' % ' '.join(str(40 * i) for i in range(500)), 'fb p 0 1 2 sli 300 %s' % ' '.join('%d 1 2' % i for i in range(300)),
+          'rr 0 7 31 %s' % ' '.join('%d 1 2 3 4 5 6' % (i + 1) for i in range(31)), 'bye 0 31 %s %s' % (' '.join(str(i + 1) for i in range(31)), '62' * 255)]
+    for m, img in zip(ms, h.images(ms)):
+        if img is None:
+            continue
+        e = entry_for_member(m)
+        base = 'parse %s %s' % (e, hx(img))
+        out.append(base)
+        for p in (4, 24, 44, 48, 100, 200, 252):
+            pl = 'parse %s %s' % (e, hx(pad_image(img, p)))
+            self.pairs[pl] = (base, p)
+            out.append(pl)
+    return out
+_extend_cases(C13, _c13_extra)
+
+def _c14_extra(self, g, tier, h):
+    out = []
+    for c in relation_members(['compound'], tier):
+        line = 'build e0:aa,e0:55 ' + c
+        out.append(line)
+        for m in set(split_members(line)):
+            out.append('build e0:aa,e0:55 ' + m)
+    return out
+_extend_cases(C14, _c14_extra)
+
+def _c15_extra(self, g, tier, h):
+    out = [l for l in relation_parse_lines(tier) if entry_of(l).startswith('fci') or entry_of(l) in ('pfb', 'tfb')]
+    return out + relation_image_lines(h, ['fb'], also=())
+_extend_cases(C15, _c15_extra)
+_c15_probes = C15.probes
+C15.probes = lambda self, tier: _c15_probes(self, tier) + [p for p in relation_probes(tier) if p[0].startswith('parse fci')]
+
+_extend_cases(C19, lambda self, g, tier, h: ['build e0:aa,e0:55,e-1:aa ' + m for m in relation_members(['unk'], tier)] +
+              ['build e0:aa ' + m for m in relation_members(['compound'], tier) if ' unk ' in m] +
+              [l for l in relation_parse_lines(tier) if entry_of(l) == 'compound'][:4])
+
 # ------------------------------------------------------------------ C20 histories
 
 class C20(Prop):
@@ -1229,12 +1321,35 @@ class C20(Prop):
                         self.canon[hl] = (canon, wrap)
                         out.append(hl)
         return out
+    def fixed_fb(self):
+        """SLI runs that continue one another, and FIR requests with many SSRCs each added twice (no randomness)"""
+        out = []
+        for es in ([(100, 20, 5), (120, 7, 5)], [(0, 120, 7), (120, 120, 7), (240, 120, 7)], [(120, 7, 5), (100, 20, 5)]):
+            f = 'sli %d %s' % (len(es), ' '.join('%d %d %d' % e for e in es))
+            canon = 'build e0:aa fb p 0 1 2 ' + f
+            out.append(canon)
+            for wrap, own in (('d', 'own'), ('pbq', 'bor'), ('comp', 'own')):
+                hl = 'hist %s fb p %s %s sender 1 media 2 end' % (wrap, own, f)
+                self.canon[hl] = (canon, wrap)
+                out.append(hl)
+        for k in (20, 120):
+            final = [(1000 + i, (i * 7 + 3) % 256) for i in range(k)]
+            adds = [(1000 + i, i % 256) for i in range(k)] + final
+            canon = 'build e0:aa fb p 0 1 2 fir %d %s' % (k, ' '.join('%d %d' % e for e in final))
+            out.append(canon)
+            for wrap, own in (('d', 'own'), ('pb', 'bor')):
+                hl = 'hist %s fb p %s fir %d %s sender 1 media 2 end' % (wrap, own, len(adds), ' '.join('%d %d' % e for e in adds))
+                self.canon[hl] = (canon, wrap)
+                out.append(hl)
+        return out
     def gen(self, g, n, kinds=None):
         out = []
         allk = ['sr', 'rr', 'app', 'bye', 'sdes', 'unk', 'fb', 'fb', 'bye', 'sdes']
         pool = [k for k in allk if kinds is None or k in kinds] or allk
         if kinds is None or 'sdes' in kinds:
             out += self.fixed_sdes()
+        if kinds is None or 'fb' in kinds:
+            out += self.fixed_fb()
         for _ in range(n):
             k = g.pick(pool)
             pad = g.pad(valid=not g.chance(0.05))
@@ -1384,6 +1499,22 @@ class C20(Prop):
         return ' '.join(t[2:])
     def nontrivial(self, line, impl):
         return kind_of(line) == 'hist'
+    def oracle(self, line, impl, model):
+        # C20_history_is_its_final_configuration: what is written is the RFC image of the final configuration (list
+        # adds in insertion order, nothing merged or dropped)
+        size = impl.get('size', '')
+        if not ok_str(size) or 'spec.image' not in model or model.get('spec.representable') == 'false':
+            return []
+        ws = writes_of(impl.get('writes'))
+        if not ws or ws[0][1] is None:
+            return []
+        hint = 'build x ' + self._member_hint(line)
+        n = size_n(size)
+        want = canon_fir_bytes(hint, S.hexbytes(model['spec.image']))
+        got = canon_fir_bytes(hint, ws[0][1][:n])
+        if got != want:
+            return ['written %s, the final configuration (adds in order) has the image %s' % (got.hex()[:160], want.hex()[:160])]
+        return []
     def companions(self, line):
         c = self.canon.get(line)
         return ([c[0]], list(c)) if c else ([], None)
